@@ -342,7 +342,7 @@ def gen_raw_case(rng):
         if w is not None and w not in watch:
             watch.append(w)
     return {'kind': 'raw', 'profile': pname, 'pre': pre, 'src': src, 'raw': raw, 'fmt': rng.randrange(2),
-            'ep': rng.randrange(4), 'gid': new, 'watch': watch, 'topo': None}
+            'ep': rng.randrange(4), 'gid': new, 'watch': watch, 'topo': None, 'peek': rng.random() < 0.3}
 
 
 # ------------------------------------------------------------------------------------------------
@@ -566,6 +566,9 @@ class Run:
             except Exception as e:
                 out['ser'] = {'kind': 'err', 'exc': type(e).__name__}
                 text = None
+            if text is not None and case.get('peek'):
+                for w in case['watch']:          # "is it there already?" - a lookup must not change what an import does
+                    imp.storage.extract_graph(w)
             if text is not None:
                 # the two file entry points read a file written the way Topology.serialize writes it
                 fn = None
@@ -591,9 +594,12 @@ class Run:
                         else:
                             t2.load(file_name=fn)
                         h = t2.graph_model
-                        out['topo'] = {'nodes': sorted(t2.nodes.keys()), 'links': sorted(t2.links.keys()),
-                                       'services': sorted(t2.network_services.keys()),
-                                       'orig_nodes': sorted(topo.nodes.keys()) if case['gid'] != case['src'] or case['ep'] in (1, 3) else None}
+                        try:        # element listings need a complete topology (a shrunk case may not be one)
+                            out['topo'] = {'nodes': sorted(t2.nodes.keys()), 'links': sorted(t2.links.keys()),
+                                           'services': sorted(t2.network_services.keys()),
+                                           'orig_nodes': sorted(topo.nodes.keys()) if case['gid'] != case['src'] or case['ep'] in (1, 3) else None}
+                        except Exception as e:
+                            out['topo'] = {'listing_failed': type(e).__name__}
                     elif case['ep'] == 0:
                         h = imp.import_graph_from_string(graph_string=text, graph_id=case['gid'])
                     elif case['ep'] == 1:
@@ -701,15 +707,37 @@ def case_content(g):
             'edges': [(byk[u].get('NodeID'), byk[v].get('NodeID'), dict(d)) for u, v, d in g['edges']]}
 
 
-def oracle(case, obs):
+def oracle(case, obs, flavour='shared'):
     g, store = source_graph(case, obs)
     if g is None:
         return None
+    # a text whose nodes carry more than one graph id cannot be imported "keeping the graph id": the direct entry
+    # points must refuse it (ABCGraphImporter.get_graph_id) and leave the store alone
+    if case['src'] is None and case['ep'] in (1, 3) and g['nodes'] and obs['ser'] and obs['ser']['kind'] in ('doc', 'json'):
+        ids = [d.get('GraphID') for _, d in g['nodes']]
+        if all(isinstance(i, str) and i and xml_legal(i) and '\r' not in i for i in ids) and len(set(ids)) > 1:
+            if obs['res'] is None or obs['res'][0] != 'import':
+                return ('%s entry point %s: a text with more than one graph id %r was imported (as %r) instead of being refused'
+                        % ('GraphML' if case['fmt'] == 0 else 'JSON', EPS[case['ep']], sorted(set(ids)), obs['res']))
+            return None
     fmt, ep = case['fmt'], case['ep']
     direct = ep in (1, 3)
     if not in_domain(g, fmt, need_gid=(g['nodes'][0][1].get('GraphID') if direct and g['nodes'] else None)):
         return None
     if direct and not isinstance(g['nodes'][0][1].get('GraphID'), str):
+        return None
+    if flavour == 'disjoint' and not direct and (store is None or (store.get(case['gid']) or {'nodes': []})['nodes']):
+        # the disjoint store documents that add_graph onto an id already in use is skipped (with a warning): the call
+        # returns normally and the graph under that id stays as it was
+        if store is not None and obs['ser']['kind'] in ('doc', 'json'):
+            if obs['res'] is None or obs['res'][0] != 'ok':
+                return 'disjoint store, entry point %s: import onto a graph id in use failed with %s instead of being skipped' % (EPS[ep], obs['res'])
+            try:
+                got = obs['graphs'][case['watch'].index(case['gid'])]
+            except ValueError:
+                return None
+            if canon_content(got) != canon_content(case_content(store[case['gid']])):
+                return 'disjoint store, entry point %s: import onto a graph id in use changed that graph' % EPS[ep]
         return None
     tag = 'GraphML' if fmt == 0 else 'JSON'
     cr = fmt == 0 and has_cr(g)
@@ -771,7 +799,8 @@ def oracle(case, obs):
         return '%s entry point %s: list_all_node_ids differs after import' % (tag, EPS[ep])
     # other graphs in the store are untouched
     for w, c in zip(case['watch'], obs['graphs']):
-        if store is not None and w != want_gid and w in store and canon_content(c) != canon_content(case_content(store[w])):
+        if (store is not None and w != want_gid and w in store and store[w]['nodes']
+                and canon_content(c) != canon_content(case_content(store[w]))):
             return '%s entry point %s: graph %r changed by the import of %r' % (tag, EPS[ep], w, want_gid)
     if obs.get('topo') and obs['topo'].get('orig_nodes') is not None and obs['topo']['nodes'] != obs['topo']['orig_nodes']:
         return '%s: topology node names differ after load' % tag
@@ -837,12 +866,11 @@ class RoundTrip(Stream, Run):
     rule = ('histories load(1-2 graphs) / serialize (GraphML | node-link JSON; of a stored graph, of an absent one, or of a raw '
             'graph) / import through one of the 4 entry points / read back / serialize again; raw graphs of 1-8 nodes with '
             'adversarial strings (quotes, markup, references, non-ASCII incl. astral, blanks, empty, TAB/LF, CR, illegal '
-            'characters), ints, bools, missing or foreign GraphID/NodeID/Class, structural JSON names; and models built '
-            'through the topology API (substrate sites, slices) driven through Topology.serialize/load; non-trivial = the '
+            'characters), ints, bools, missing or foreign GraphID/NodeID/Class, structural JSON names; non-trivial = the '
             'import was attempted on a graph with at least 2 nodes and 1 edge; distinct by case value')
 
     def gen(self, rng, tier):
-        n_raw, n_topo = (420, 36) if tier == 'quick' else (9000, 400)
+        n_raw = 340 if tier == 'quick' else 9000
         out = []
         # both formats x four entry points on every profile, systematically first
         for fmt in range(2):
@@ -853,13 +881,6 @@ class RoundTrip(Stream, Run):
                     out.append(c)
         for _ in range(n_raw):
             out.append(gen_raw_case(rng))
-        for i in range(n_topo):
-            try:
-                c = gen_topo_case(rng, big=(tier != 'quick' and i % 4 == 0))
-                c['fmt'], c['ep'] = (i // 4) % 2, i % 4
-                out.append(c)
-            except Exception as e:
-                log('C01: topology builder failed: %r' % (e,))
         return out
 
     def corpus(self):
@@ -893,9 +914,11 @@ class RoundTrip(Stream, Run):
             ob = '{| o_loads := []; o_ser := SErr; o_res := Some RUnsupported; o_graphs := []; o_reser := None |}'
         return '(%s, %s)' % (c, ob)
 
+    flavour = 'shared'
+
     def oracle(self, case, o):
         try:
-            return oracle(case, o)
+            return oracle(case, o, self.flavour)
         except Exception as e:
             return 'oracle could not interpret the observation: %r' % (e,)
 
@@ -939,10 +962,12 @@ class RoundTrip(Stream, Run):
 
     def shrink(self, case, failing):
         case = copy.deepcopy(case)
+        kind = lambda w: re.sub(r'entry point \w+', 'entry point', re.sub(r'''[(\['"].*''', '', w or '', flags=re.S))
+        why0 = kind(self.oracle(case, self.observe(case)))
 
-        def attempt(c2):
+        def attempt(c2):       # keep the same kind of failure while shrinking
             try:
-                return failing(c2)
+                return failing(c2) and kind(self.oracle(c2, self.observe(c2))) == why0
             except Exception:
                 return False
         changed = True
@@ -1000,11 +1025,71 @@ class RoundTrip(Stream, Run):
         return case
 
 
+class TopoTrip(RoundTrip):
+    """the same history for models built through the topology API, driven through Topology.serialize / Topology.load"""
+    name = 'topology'
+    shard = 5
+    rule = ('substrate sites (workers, NVMe/GPU/shared and dedicated NICs, NAS, switch, ports, links; texts with quotes, '
+            'markup, non-ASCII, blanks, TAB/LF) and slices (VMs, components, L2Bridge / FABNetv4 services, boot scripts) built '
+            'through the topology API; both formats x four entry points (string/string-direct/file-direct through '
+            'Topology.serialize/load); non-trivial = every case; distinct by case value')
+
+    def gen(self, rng, tier):
+        n_topo = 32 if tier == 'quick' else 400
+        out = []
+        for i in range(n_topo):
+            try:
+                c = gen_topo_case(rng, big=(tier != 'quick' and i % 4 == 0))
+                c['fmt'], c['ep'] = (i // 4) % 2, i % 4
+                out.append(c)
+            except Exception as e:
+                log('C01: topology builder failed: %r' % (e,))
+        return out
+
+    def corpus(self):
+        return []
+
+
+class DisjointTrip(RoundTrip):
+    """the same histories on the second in-memory store flavour (one nx.Graph per graph id)"""
+    name = 'disjoint'
+    flavour = 'disjoint'
+    check_fn = 'check_d'
+    header = RoundTrip.header.replace('Model.Serial1Corr.', 'Model.Serial1Corr Model.Serial1Disjoint.')
+    rule = ('the raw-graph histories of stream roundtrip on NetworkXGraphImporterDisjoint / NetworkXPropertyGraphDisjoint '
+            '(add_graph onto an id in use is skipped, extract of an absent id is an empty graph); non-trivial and distinct as '
+            'in roundtrip')
+
+    def importer(self):
+        from fim.graph.networkx_property_graph_disjoint import NetworkXGraphImporterDisjoint
+        return NetworkXGraphImporterDisjoint()
+
+    def graph_cls(self):
+        from fim.graph.networkx_property_graph_disjoint import NetworkXPropertyGraphDisjoint
+        return NetworkXPropertyGraphDisjoint
+
+    def gen(self, rng, tier):
+        n = 120 if tier == 'quick' else 4000
+        out = []
+        for fmt in range(2):
+            for ep in range(4):
+                for _ in range(2 if tier == 'quick' else 20):
+                    c = gen_raw_case(rng)
+                    c['fmt'], c['ep'] = fmt, ep
+                    out.append(c)
+        for _ in range(n):
+            out.append(gen_raw_case(rng))
+        return out
+
+    def corpus(self):
+        return []
+
+
 class C01(Check):
     pid = 'C01'
     translators = []
-    model_targets = ['Model/Serial1Corr.vo']
-    streams = [RoundTrip()]
+    model_targets = ['Model/Serial1Corr.vo', 'Model/Serial1Disjoint.vo']
+    streams = [RoundTrip(), TopoTrip(), DisjointTrip()]
     trusted_base = [
         'Coq 8.16.1 kernel (coqc), vm_compute for the correspondence evaluation; no native_compute',
         'Print Assumptions of every C01 theorem: Closed under the global context (no axioms)',
